@@ -126,6 +126,8 @@ def _twin(v):
         return tuple(list(v))
     if isinstance(v, str):
         return "".join(list(v))
+    if isinstance(v, _Scalar):
+        return _Scalar(v.x)
     return v
 
 
@@ -144,7 +146,54 @@ def _as_fraction(x):
     return Fraction(x, 3)
 
 
-OFFSET_TYPES = [("(line, column) pairs", _as_line_col), ("zero padded strings", _as_padded_str), ("fractions", _as_fraction)]
+class _Truth:
+    """The result of comparing two array-scalar-like offsets: a truth value that is no builtin bool (like numpy.bool_)."""
+    __slots__ = ("v",)
+
+    def __init__(self, v):
+        self.v = bool(v)
+
+    def __bool__(self):
+        return self.v
+
+    def __repr__(self):
+        return f"Truth({self.v})"
+
+
+class _Scalar:
+    """An offset whose comparisons answer with _Truth objects (a numpy scalar behaves like that)."""
+    __slots__ = ("x",)
+
+    def __init__(self, x):
+        self.x = x
+
+    def __lt__(self, o):
+        return _Truth(self.x < o.x)
+
+    def __le__(self, o):
+        return _Truth(self.x <= o.x)
+
+    def __gt__(self, o):
+        return _Truth(self.x > o.x)
+
+    def __ge__(self, o):
+        return _Truth(self.x >= o.x)
+
+    def __eq__(self, o):
+        return _Truth(isinstance(o, _Scalar) and self.x == o.x)
+
+    def __ne__(self, o):
+        return _Truth(not (isinstance(o, _Scalar) and self.x == o.x))
+
+    def __hash__(self):
+        return hash(self.x)
+
+    def __repr__(self):
+        return f"s{self.x}"
+
+
+OFFSET_TYPES = [("(line, column) pairs", _as_line_col), ("zero padded strings", _as_padded_str), ("fractions", _as_fraction),
+                ("array-scalar-like numbers whose comparisons return truth objects that are no bools", _Scalar)]
 
 
 def check_pair(a_spans, a_rel, b_spans, b_rel, form, u, res):
